@@ -219,6 +219,8 @@ def corpus_files(kinds=('example', 'ok')):
         out += sorted(glob.glob(os.path.join(chk.REPO, 'example', 'test', '*.fail.nmfu')))
     if 'verif' in kinds:
         out += sorted(glob.glob(os.path.join(chk.VERIF, 'corpus', '*.nmfu')))
+    if 'cycle' in kinds:
+        out += sorted(glob.glob(os.path.join(chk.VERIF, 'corpus', 'cycle', '*.nmfu')))
     return out
 
 
